@@ -337,6 +337,12 @@ def run(chk):
         ok = pathcond.every_path_requires(paths3, lambda t, pol: pol and isinstance(t, ast.Call) and 'is_strict' in norm(t.func))
     chk.ob('C05-M', 'BaseDataType.__init__ raises MaxLengthReached under STRICT', ok, '', guard_fn.loc, key='C05-M|guard')
 
+    chk.rule('C05-G', 'the conditions under which attaching / constructing / re-typing is refused are those of the reviewed tree: no refusal was weakened and none was extended to TOLERANT (what STRICT enforces stays enforced; TOLERANT accepts what it accepted)')
+    from . import guardrules
+    ng_ = guardrules.check(chk, c, 'C05-G', ['core.ElementList._can_add_child', 'core.SupportComplexDataType._is_valid_child', 'core.Segment._is_valid_child', 'core.Group._is_valid_child', 'core.Component.add', 'core.Field.add', 'core.Component.add_subcomponent', 'core.CanBeVaries.__init__', 'core.Field.__init__', 'core.Component.__init__', 'core.SubComponent.__init__', 'core.Group.__init__', 'core.Segment.__init__', 'core.Element.__init__', 'core.SupportComplexDataType.__init__', 'core.SupportComplexDataType._set_datatype', 'core.SubComponent._set_datatype', 'core.SubComponent._set_value', 'core.SubComponent.add', 'core.SupportComplexDataType._set_value', 'core.ElementList.set', 'base_datatypes.BaseDataType.__init__'])
+    chk.floor('refusal predicates compared (C05-G)', ng_, 1)
+
+
 
 def _inside(root, node):
     for n in ast.walk(root):
